@@ -128,6 +128,16 @@ def all_orders(max_n=4):
     return out
 
 
+class SpawnPoolN:
+    """factory of real pools whose workers are started afresh (start method `spawn`: they import the modules again and inherit
+    nothing of the parent's memory - the default on macOS / Windows, and no longer `fork` on Linux from Python 3.14)"""
+    def __init__(self, n):
+        self.n = n
+
+    def __call__(self, *a, **k):
+        return multiprocessing.get_context("spawn").Pool(self.n)
+
+
 class RealPoolN:
     """factory of real pools with a fixed worker count"""
     def __init__(self, n):
